@@ -5,10 +5,15 @@ Subset: functions over records of booleans (and a few scalars), whose bodies are
   * `if / elif / else` whose branches assign (the same) local names or attributes,
   * `assert` (ignored: it can only raise, the models are about returned values;
     each ignored assert is listed in the translation report),
-  * `return <expr>`.
-Expressions: names, `self.attr`-style attribute reads, True/False, and/or/not,
-comparison of booleans with == != <= >=, conditional expressions, calls that the
-client maps through `call_hook`.
+  * `return <expr>` - at the end, or EARLY: an `if` that contains a return is normalised by
+    continuation (`if c: A` followed by `rest` = `if c then [A; rest] else [orelse; rest]`), so guard
+    clauses / `if c: return x` sequences give the same if/else tree as the elif chains they replace;
+    statements after a return are unreachable and ignored (listed in the report).
+Expressions: names, `self.attr`-style attribute reads, `getattr(obj, "name")` where the name is a
+string literal or a parameter that an inlined call bound to a string literal, True/False, and/or/not,
+comparison of booleans with == != <= >=, conditional expressions, `any(...)` / `all(...)` over a
+generator with one `for` over a literal tuple/list of constants (unrolled), calls that the client maps
+through `call_hook` (logics_tr INLINES calls to other methods / private functions there).
 
 Anything else raises Untranslatable: the caller reports it and falls back to the
 hand model + correspondence for that function.
@@ -20,12 +25,21 @@ class Untranslatable(Exception):
     pass
 
 
+class StrConst(object):
+    """A string literal bound to a parameter of an inlined call (only usable as an attribute name)."""
+
+    def __init__(self, value):
+        self.value = value
+
+
 class Ctx(object):
     def __init__(self, attr_of, call_hook=None, name_hook=None):
         self.attr_of = attr_of        # (objname, attr) -> gallina text of the read
         self.call_hook = call_hook    # (ast.Call, tr) -> text or None
         self.name_hook = name_hook
         self.ignored = []
+        self.fresh = None             # set by function(): one name supply for a function and everything inlined into it
+        self.inlining = []            # callees being inlined (recursion is rejected)
 
 
 def expr(e, env, cx):
@@ -38,6 +52,8 @@ def expr(e, env, cx):
         raise Untranslatable("constant %r" % (e.value,))
     if isinstance(e, ast.Name):
         if e.id in env:
+            if isinstance(env[e.id], StrConst):
+                raise Untranslatable("string parameter %s used as a value" % e.id)
             return env[e.id]
         if cx.name_hook:
             r = cx.name_hook(e.id)
@@ -75,6 +91,37 @@ def expr(e, env, cx):
         raise Untranslatable("comparison %s" % type(o).__name__)
     if isinstance(e, ast.IfExp):
         return "(if %s then %s else %s)" % (expr(e.test, env, cx), expr(e.body, env, cx), expr(e.orelse, env, cx))
+    if isinstance(e, ast.Call) and isinstance(e.func, ast.Name) and e.func.id == "getattr" and e.func.id not in env:
+        if len(e.args) != 2 or e.keywords:
+            raise Untranslatable("getattr with a default")
+        n = e.args[1]
+        if isinstance(n, ast.Constant) and isinstance(n.value, str):
+            name = n.value
+        elif isinstance(n, ast.Name) and isinstance(env.get(n.id), StrConst):
+            name = env[n.id].value
+        else:
+            raise Untranslatable("getattr with a computed attribute name")
+        return cx.attr_of(expr(e.args[0], env, cx), name)
+    if isinstance(e, ast.Call) and isinstance(e.func, ast.Name) and e.func.id in ("any", "all") and e.func.id not in env:
+        if len(e.args) != 1 or e.keywords or not isinstance(e.args[0], ast.GeneratorExp):
+            raise Untranslatable("%s over something that is not a generator expression" % e.func.id)
+        g = e.args[0]
+        if len(g.generators) != 1 or g.generators[0].ifs or g.generators[0].is_async or not isinstance(g.generators[0].target, ast.Name) \
+                or not isinstance(g.generators[0].iter, (ast.Tuple, ast.List)):
+            raise Untranslatable("generator that is not one `for <name> in (<literals>)`")
+        parts = []
+        for item in g.generators[0].iter.elts:
+            if not isinstance(item, ast.Constant):
+                raise Untranslatable("generator over non-literals")
+            env2 = dict(env)
+            env2[g.generators[0].target.id] = StrConst(item.value) if isinstance(item.value, str) else expr(item, env, cx)
+            parts.append(expr(g.elt, env2, cx))
+        if not parts:
+            return "true" if e.func.id == "all" else "false"
+        out = parts[0]
+        for q in parts[1:]:
+            out = "(%s %s %s)" % (out, "&&" if e.func.id == "all" else "||", q)
+        return out
     if isinstance(e, ast.Call) and cx.call_hook:
         r = cx.call_hook(e, env, cx)
         if r is not None:
@@ -166,6 +213,45 @@ def block(stmts, env, cx, set_attr, fresh):
     return lets, env
 
 
+def contains_return(stmts):
+    return any(isinstance(n, ast.Return) for s in stmts for n in ast.walk(s))
+
+
+def always_returns(stmts):
+    for s in stmts:
+        if isinstance(s, ast.Return):
+            return True
+        if isinstance(s, ast.If) and s.orelse and always_returns(s.body) and always_returns(s.orelse):
+            return True
+    return False
+
+
+def body_expr(stmts, env, cx, set_attr, fresh):
+    """Gallina expression of a statement list that returns on every path."""
+    lets, env = [], dict(env)
+
+    def wrap(out):
+        for n, v in reversed(lets):
+            out = "let %s := %s in\n  %s" % (n, v, out)
+        return out
+    for i, s in enumerate(stmts):
+        if isinstance(s, ast.Return):
+            if s.value is None:
+                raise Untranslatable("return without a value")
+            if stmts[i + 1:]:
+                cx.ignored.append("unreachable statements after the return at line %d ignored" % s.lineno)
+            return wrap(expr(s.value, env, cx))
+        if isinstance(s, ast.If) and contains_return([s]):
+            rest = stmts[i + 1:]
+            c = expr(s.test, env, cx)
+            then_e = body_expr(s.body if always_returns(s.body) else s.body + rest, env, cx, set_attr, fresh)
+            else_e = body_expr((s.orelse if always_returns(s.orelse) else s.orelse + rest) if s.orelse else rest, env, cx, set_attr, fresh)
+            return wrap("(if %s then %s else %s)" % (c, then_e, else_e))
+        l1, env = block([s], env, cx, set_attr, fresh)
+        lets += l1
+    raise Untranslatable("a path does not end in return")
+
+
 def function(fn, params, cx, set_attr):
     """fn: ast.FunctionDef; params: python parameter name -> gallina name.
     Returns the Gallina body text."""
@@ -174,11 +260,6 @@ def function(fn, params, cx, set_attr):
     def fresh(base):
         counter[base] = counter.get(base, 0) + 1
         return "%s_%d" % (base, counter[base])
-    body = list(fn.body)
-    if not body or not isinstance(body[-1], ast.Return):
-        raise Untranslatable("function does not end in return")
-    lets, env = block(body[:-1], dict(params), cx, set_attr, fresh)
-    out = expr(body[-1].value, env, cx)
-    for n, v in reversed(lets):
-        out = "let %s := %s in\n  %s" % (n, v, out)
-    return out
+    if cx.fresh is None:
+        cx.fresh = fresh
+    return body_expr(list(fn.body), dict(params), cx, set_attr, cx.fresh)
